@@ -1743,4 +1743,106 @@ theorem hConstruct_sep {h : Heap} {srr : Bool} {data : List Arr} {given config :
   · intro e he hm; have := hF.1 _ hm; have := s2 e he; omega
   · intro hm; have := hF.2.2 _ hm; omega
 
+/-! ## what is NOT detached: writes into stored memory, the calibration handed to `add` -/
+
+theorem get?_mem {l : List (Name × Nat)} {n : Name} {i : Nat} (h : get? l n = some i) : (n, i) ∈ l := by
+  induction l with
+  | nil => simp at h
+  | cons x r ih =>
+    rw [get?_cons] at h
+    split at h
+    · next hx => simp only [Option.some.injEq] at h; subst h; subst hx; simp
+    · simp [ih h]
+
+theorem stored_write_visible' (w : World) (hv : Valid w) (layer : Nat) (a : Arr) (n : Name) (i v : Nat)
+    (ha : w.laser.data[layer]? = some a) (hi : get? a.fields n = some i) :
+    readE (view (hstep w (.writeCell i v)).state) layer (some n) false = .ok [(n, v, none)] := by
+  have hlt : i < w.heap.cells.length := hv.data_ok a (List.mem_of_getElem? ha) (n, i) (get?_mem hi)
+  simp only [hstep, Res.state, readE]
+  have hlay : (view ⟨⟨w.heap.cells.set i v, w.heap.cals, w.heap.cfgs, w.heap.offs, w.heap.dicts⟩, w.laser⟩).layers[layer]?
+      = some (viewLayer ⟨w.heap.cells.set i v, w.heap.cals, w.heap.cfgs, w.heap.offs, w.heap.dicts⟩ a) := by
+    simp [view, List.getElem?_map, ha]
+  rw [show ({ w with heap := { w.heap with cells := w.heap.cells.set i v } } : World) =
+    ⟨⟨w.heap.cells.set i v, w.heap.cals, w.heap.cfgs, w.heap.offs, w.heap.dicts⟩, w.laser⟩ from rfl, hlay]
+  simp only [readLayerE, viewLayer, get?_mapV, hi, Option.map_some, Bool.false_eq_true, if_false]
+  congr 3
+  unfold Heap.cell
+  simp [List.getElem?_set_self hlt]
+
+theorem hAdd_ok_dict {w w' : World} (hv : Valid w) {n : Name} {xs : List ArrIn} {k : Nat}
+    (ha : ArgsOK w.heap (.add n xs (some k))) (hs : hAdd w n xs (some k) = .ok w') :
+    w'.laser.cal = w.laser.cal ∧ get? (w'.heap.dict w'.laser.cal) n = some k ∧ w'.heap.cals = w.heap.cals ∧
+      w'.laser.cfg = w.laser.cfg ∧ w'.heap.cfgs = w.heap.cfgs := by
+  unfold hAdd at hs
+  split at hs
+  · simp at hs
+  · cases hE : hAddLayers n w.laser.data xs w.heap with
+    | error q => rw [hE] at hs; obtain ⟨e, ls, h⟩ := q; simp at hs
+    | ok q =>
+      obtain ⟨ls, h⟩ := q
+      rw [hE] at hs
+      simp only [Res.ok.injEq] at hs
+      subst hs
+      obtain ⟨_, hg, _, _⟩ := hAddLayers_ok n _ _ _ _ _ hv.data_ok ha.1 hE
+      have hdl : w.laser.cal < h.dicts.length := by rw [hg.2.2.2.2.2]; exact hv.dict_lt
+      refine ⟨rfl, ?_, hg.2.2.1, rfl, hg.2.2.2.1⟩
+      show get? ((h.storeCal w.laser.cal n (some k)).dict w.laser.cal) n = some k
+      rw [storeCal_some]
+      have : (⟨h.cells, h.cals, h.cfgs, h.offs, h.dicts.set w.laser.cal (dictSet (h.dict w.laser.cal) n k)⟩ : Heap).dict
+          w.laser.cal = dictSet (h.dict w.laser.cal) n k := by
+        unfold Heap.dict
+        simp only [List.getElem?_set_self hdl, Option.getD_some]
+      rw [this, get?_dictSet, if_pos rfl]
+
+theorem hAdd_ok_fresh {w w' : World} (hv : Valid w) {n : Name} {xs : List ArrIn} {cal : Option Nat}
+    (ha : ArgsOK w.heap (.add n xs cal)) (hs : hAdd w n xs cal = .ok w') :
+    ∀ a ∈ w'.laser.data, ∀ e ∈ a.fields, w.heap.cells.length ≤ e.2 := by
+  unfold hAdd at hs
+  split at hs
+  · simp at hs
+  · cases hE : hAddLayers n w.laser.data xs w.heap with
+    | error q => rw [hE] at hs; obtain ⟨e, ls, h⟩ := q; simp at hs
+    | ok q =>
+      obtain ⟨ls, h⟩ := q
+      rw [hE] at hs
+      simp only [Res.ok.injEq] at hs
+      subst hs
+      obtain ⟨_, _, _, hf⟩ := hAddLayers_ok n _ _ _ _ _ hv.data_ok ha.1 hE
+      exact hf
+
+theorem hRemove_fresh (w : World) (hv : Valid w) (ns : List Name) :
+    ∀ a ∈ (hRemove w ns).state.laser.data, ∀ e ∈ a.fields, w.heap.cells.length ≤ e.2 := by
+  obtain ⟨_, _, _, hf⟩ := hDropLayers_spec ns w.laser.data w.heap hv.data_ok
+  unfold hRemove
+  simp only
+  split <;> exact hf
+
+theorem renameLayersE_cells {m : NameMap} : ∀ {ls r : List Layer}, renameLayersE m ls = .ok r →
+    r.map (fun a => a.fields.map (·.2)) = ls.map (fun a => a.fields.map (·.2)) := by
+  intro ls
+  induction ls with
+  | nil => intro r h; simp only [renameLayersE, Except.ok.injEq] at h; subst h; rfl
+  | cons l t ih =>
+    intro r h
+    simp only [renameLayersE] at h
+    cases hl : l.rename m with
+    | none => rw [hl] at h; simp at h
+    | some l' =>
+      rw [hl] at h
+      dsimp only at h
+      cases ht : renameLayersE m t with
+      | error p => rw [ht] at h; obtain ⟨e, q⟩ := p; simp at h
+      | ok q =>
+        rw [ht] at h
+        simp only [Except.ok.injEq] at h
+        subst h
+        simp only [List.map_cons, ih ht, List.cons.injEq, and_true]
+        unfold Layer.rename at hl
+        simp only at hl
+        split at hl
+        · simp only [Option.some.injEq] at hl
+          subst hl
+          simp [List.map_map, Function.comp_def]
+        · simp at hl
+
 end Pew.LaserEdit
